@@ -878,6 +878,8 @@ def run(tier):
     ec_work_buffers(chk)
     transcript_follows_wire(chk)
     max_fragment_fields_agree(chk)
+    from .c19 import io_wrapper_acks_transport_count
+    io_wrapper_acks_transport_count(chk)      # 'all transport chunkings': short writes of the transport callback
     from .c02 import cbc_padding_length_range
     cbc_padding_length_range(chk)
     from .. import engio, oblig as _ob
